@@ -762,6 +762,11 @@ struct Emitter
                 co["ref"] = cap.getCaptureKind() == LCK_ByRef;
                 if (cap.isImplicit())
                     co["implicit"] = true;
+                if (ci != x->capture_init_end() && *ci && cap.capturesVariable() && cap.getCapturedVar()->isInitCapture())
+                {
+                    co["init"] = true;
+                    c.push_back(node(*ci, depth + 1)); // init-capture expression, evaluated where the lambda is created
+                }
                 caps.push_back(std::move(co));
                 ++ci;
             }
